@@ -7,5 +7,6 @@ cd "$ROOT/harness" || exit 1
 sed "s#@PUSHR_SRC@#${PUSHR_SRC:-/repo}#" Cargo.toml.in > Cargo.toml
 cargo build --offline -q --target-dir "$ROOT/harness/target" || exit 1
 cargo build --offline -q --release --target-dir "$ROOT/harness/target-rel" || exit 1
+(cd "${PUSHR_SRC:-/repo}" && cargo build --offline -q --bin pushr --target-dir "$ROOT/harness/target-cli") || exit 1
 mkdir -p "$ROOT/evidence" "$ROOT/replays"
 echo "setup ok"
